@@ -14,12 +14,14 @@
     curry_sig <bd inner> <int n> <bool left>                -> ok <bty dom> <bty cod>
     b2r_curry <bd inner> <int n> <bool left>                -> ok <diagram> | err <class>
     cat2ty <raw string | <empty>>                           -> ok <bty> | err <class>
-    tree2diagram <tree>                                     -> ok <bty dom> <bty cod> | <b2r answer>
-                                                               | err <class>
+    tree2diagram <bty dom> <tree>                           -> ok <bty dom> <bty cod> | <b2r answer>
+                                                               | err <class>   (`tree2diagram(tree, dom=dom)`)
     variant                                                 -> ba=<0|1> curry=<0|1>   (Variant.current)
 
   Tokens:  bty  ::= <n> bob*           bob ::= a <name> | o <bty> <bty> | u <bty> <bty>
-           rule ::= gen <name> <bty> <bty> | fa <bty> <bty> | ba <bty> <bty>
+           rule ::= gen <name> <bty dom> <bty cod> | dgen <name> <bty dom> <bty cod>   (`_dagger=True`)
+                  | word <name> <bty dom> <bty cod> <bool dagger>      (`Word(name, cod, dom=dom, _dagger=…)`)
+                  | fa <bty> <bty> | ba <bty> <bty>
                   | fc|bc|fx|bx <bty> <bty> <bty> <bty>
            tree ::= word <name> <cat> | node <name> <cat> <n> tree*      (cat raw, `<empty>` = '')
            bd   ::= bid <bty> | bsnoc <bd> <int off> <rule> | bcurry <bd> <int off> <bd> <int n> <bool left>
@@ -50,6 +52,8 @@ def rule : P Rule := do
   let t ← tok
   match t with
   | "gen" => do let n ← tok; let d ← bty; let c ← bty; pure (.gen n d c)
+  | "dgen" => do let n ← tok; let d ← bty; let c ← bty; pure (.dgen n d c)
+  | "word" => do let n ← tok; let d ← bty; let c ← bty; let dg ← bool; pure (mkWord n c d dg)
   | "fa" => do let l ← bty; let r ← bty; pure (.fa l r)
   | "ba" => do let l ← bty; let r ← bty; pure (.ba l r)
   | "fc" => do let a ← bty; let b ← bty; let c ← bty; let d ← bty; pure (.fc a b c d)
@@ -142,8 +146,8 @@ def handle (cmd : String) (rest : List String) : Option String :=
       | .ok t => "ok " ++ pBTy t
       | .error e => "err " ++ toString e)
   | "tree2diagram" =>
-    some <| run tree rest (fun t =>
-      match t.toBD v with
+    some <| run (do let dom ← bty; let t ← tree; pure (dom, t)) rest (fun (dom, t) =>
+      match t.toBD v dom with
       | .ok d => s!"ok {pBTy d.dom} {pBTy (d.cod v)} | {pResult (d.img v)}"
       | .error e => "err " ++ toString e)
   | "variant" =>
